@@ -198,7 +198,12 @@ class Lowerer:
         s = re.sub(r'\bnullptr\b', '0', s)
         s = re.sub(r'\[\[\s*\w+(::\w+)?\s*\]\]', '', s)
         s = re.sub(r'\bstd::(size_t|uint64_t|uint32_t|uint16_t|uint8_t|int64_t|int32_t|uintptr_t|intptr_t|ptrdiff_t)\b', r'\1', s)
-        s = re.sub(r'\bstd::(move|forward)\s*(<[^<>()]*>)?\s*\(', '(', s)
+        if self.spec.get('track_moves'):
+            # unit tracks value categories: std::move(x) -> XV_MOVE(x), std::forward<T>(x) -> XV_FORWARD(x) (macros defined by the unit)
+            s = re.sub(r'\bstd::move\s*\(', 'XV_MOVE(', s)
+            s = re.sub(r'\bstd::forward\s*(<[^<>()]*>)?\s*\(', 'XV_FORWARD(', s)
+        else:
+            s = re.sub(r'\bstd::(move|forward)\s*(<[^<>()]*>)?\s*\(', '(', s)
         s = re.sub(r'\bXENIUM_THREAD_FENCE\s*\(', 'A_FENCE(', s)
         s = re.sub(r'\bstd::atomic_thread_fence\s*\(', 'A_FENCE(', s)
         s = re.sub(r'\bXENIUM_(UN)?LIKELY\b', '', s)
